@@ -319,11 +319,21 @@ IsCellFamily(name) == name \in {"C221","C222","C222s"}
 IsMinkFamily(name) == name \in {"MKc","MKn","MK2","MD2"}
 
 (* ======================= facts computed by the specification ============== *)
+(* two sub-clouds P1 = P without the extreme point e1, P2 = P without e2, both *)
+(* still spanning volume: conv(conv(P1) u conv(P2)) = conv(P), the input of    *)
+(* Hull(vector<Manifold>); <<>> when P has no two such points                  *)
+SplitOf(P, ext) ==
+  LET S == ToSet(P)
+      cands == { e \in ext : SpansVolumeS(S \ {e}) }
+  IN IF Cardinality(cands) < 2 THEN <<>>
+     ELSE LET e1 == CHOOSE x \in cands : \A y \in cands : x = y \/ LexLess(x, y)
+              e2 == CHOOSE x \in cands : \A y \in cands : x = y \/ LexLess(y, x)
+          IN << SelectSeq(P, LAMBDA p : p # e1), SelectSeq(P, LAMBDA p : p # e2) >>
 HullFacts(P) ==
   LET S == ToSet(P)
       m == RefMesh(S)
   IN [pts |-> P, dim |-> AffDim(S), spans |-> SpansVolumeS(S),
-      ext |-> MeshVertSet(m), vol6 |-> MeshVol6(m), mesh |-> m]
+      ext |-> MeshVertSet(m), vol6 |-> MeshVol6(m), mesh |-> m, split |-> SplitOf(P, MeshVertSet(m))]
 CornerSeq(C) == FlattenSeq([i \in 1..Cardinality(C) |->
                   LET c == SetToSortSeq(C, LexLess)[i] IN SetToSortSeq({ Add3(c, e) : e \in E8 }, LexLess)])
 MinkFacts(c) ==
@@ -391,7 +401,7 @@ Emitted(x) ==
   ELSE
     LET h == x.h
         base == [kind |-> x.kind, pts |-> h.pts, dim |-> h.dim, spans |-> h.spans,
-                 ext |-> SeqOfSet(h.ext), vol6 |-> h.vol6]
+                 ext |-> SeqOfSet(h.ext), vol6 |-> h.vol6, split |-> h.split]
     IN IF x.kind = "cells" THEN [c \in {"cells"} |-> SeqOfSet(x.cells)] @@ base ELSE base
 
 Next == /\ ~done /\ done' = TRUE /\ cs' = Computed
@@ -407,6 +417,13 @@ SpansIffVolume == (IsHullCase /\ done) =>
   /\ cs.h.spans = ~IsEmptyMesh(cs.h.mesh)
   /\ cs.h.spans = (cs.h.vol6 > 0)
   /\ (~cs.h.spans => cs.h.vol6 = 0 /\ cs.h.ext = {})
+(* the two sub-clouds of the split together have the hull of P              *)
+SplitSound == (IsHullCase /\ done /\ cs.h.split # <<>>) =>
+  LET m1 == RefMesh(ToSet(cs.h.split[1]))
+      m2 == RefMesh(ToSet(cs.h.split[2]))
+  IN /\ ~IsEmptyMesh(m1) /\ ~IsEmptyMesh(m2)
+     /\ MeshVertSet(m1) # cs.h.ext /\ MeshVertSet(m2) # cs.h.ext
+     /\ MeshVertSet(RefMesh(MeshVertSet(m1) \cup MeshVertSet(m2))) = cs.h.ext
 (* the printed extreme set is the independent (Caratheodory) one              *)
 ExtremeAgree == (IsHullCase /\ done /\ cs.h.spans /\ Cardinality(ToSet(cs.h.pts)) <= 12) =>
   cs.h.ext = ExtremeByCaratheodory(ToSet(cs.h.pts))
